@@ -1,6 +1,38 @@
--- shard 7 of the closeness / tick-gap sweep (C06 (c), (e)): |tick| in [229376, 262144)
+-- shard 7 of the closeness / tick-gap sweep (C06 (c), (e)): |tick| in [229376, 262144), 16 blocks of 2^11
 import Proofs.Lemmas.ClosePred
 namespace Demeter.TickClose
 set_option maxRecDepth 100000 in
-theorem close_shard_07 : chkN closeSweepPred 229376 shardBits = true := by decide +kernel
+theorem close_blk_229376 : chkN closeSweepPred 229376 11 = true := by decide +kernel
+set_option maxRecDepth 100000 in
+theorem close_blk_231424 : chkN closeSweepPred 231424 11 = true := by decide +kernel
+set_option maxRecDepth 100000 in
+theorem close_blk_233472 : chkN closeSweepPred 233472 11 = true := by decide +kernel
+set_option maxRecDepth 100000 in
+theorem close_blk_235520 : chkN closeSweepPred 235520 11 = true := by decide +kernel
+set_option maxRecDepth 100000 in
+theorem close_blk_237568 : chkN closeSweepPred 237568 11 = true := by decide +kernel
+set_option maxRecDepth 100000 in
+theorem close_blk_239616 : chkN closeSweepPred 239616 11 = true := by decide +kernel
+set_option maxRecDepth 100000 in
+theorem close_blk_241664 : chkN closeSweepPred 241664 11 = true := by decide +kernel
+set_option maxRecDepth 100000 in
+theorem close_blk_243712 : chkN closeSweepPred 243712 11 = true := by decide +kernel
+set_option maxRecDepth 100000 in
+theorem close_blk_245760 : chkN closeSweepPred 245760 11 = true := by decide +kernel
+set_option maxRecDepth 100000 in
+theorem close_blk_247808 : chkN closeSweepPred 247808 11 = true := by decide +kernel
+set_option maxRecDepth 100000 in
+theorem close_blk_249856 : chkN closeSweepPred 249856 11 = true := by decide +kernel
+set_option maxRecDepth 100000 in
+theorem close_blk_251904 : chkN closeSweepPred 251904 11 = true := by decide +kernel
+set_option maxRecDepth 100000 in
+theorem close_blk_253952 : chkN closeSweepPred 253952 11 = true := by decide +kernel
+set_option maxRecDepth 100000 in
+theorem close_blk_256000 : chkN closeSweepPred 256000 11 = true := by decide +kernel
+set_option maxRecDepth 100000 in
+theorem close_blk_258048 : chkN closeSweepPred 258048 11 = true := by decide +kernel
+set_option maxRecDepth 100000 in
+theorem close_blk_260096 : chkN closeSweepPred 260096 11 = true := by decide +kernel
+theorem close_shard_07 : chkN closeSweepPred 229376 shardBits = true :=
+  (chkN_join _ 229376 14 (chkN_join _ 229376 13 (chkN_join _ 229376 12 (chkN_join _ 229376 11 close_blk_229376 close_blk_231424) (chkN_join _ 233472 11 close_blk_233472 close_blk_235520)) (chkN_join _ 237568 12 (chkN_join _ 237568 11 close_blk_237568 close_blk_239616) (chkN_join _ 241664 11 close_blk_241664 close_blk_243712))) (chkN_join _ 245760 13 (chkN_join _ 245760 12 (chkN_join _ 245760 11 close_blk_245760 close_blk_247808) (chkN_join _ 249856 11 close_blk_249856 close_blk_251904)) (chkN_join _ 253952 12 (chkN_join _ 253952 11 close_blk_253952 close_blk_256000) (chkN_join _ 258048 11 close_blk_258048 close_blk_260096))))
 end Demeter.TickClose
